@@ -45,6 +45,53 @@ def ring_cases():
     return scns
 
 
+def status_cases():
+    """app_boot_status on its own (no start before it): every consistent ring state with in-progress headers at chosen positions -
+       the newest pair, only the newest slot, the oldest slot, all, a lone first header (first update interrupted between its two
+       header writes)"""
+    scns = []
+    slot, blk = 17664, 256
+    for N in (3, 4, 5, 6):
+        for f in range(1, N + 1):
+            for p in range(N):
+                for s0 in (7, 0xFFFFFFFE - max(0, f - 2)):
+                    seqs, s = [], s0
+                    for k in range(f):
+                        seqs.append(s); s = nxt(s)
+                    sets = [set(), {f - 1}, {0}, set(range(f))]
+                    if f >= 2: sets += [{f - 2, f - 1}, {f - 2}]
+                    if f >= 4: sets += [{0, 1, f - 2, f - 1}, {0, 1}]
+                    seen = []
+                    for ipset in sets:
+                        if ipset in seen: continue
+                        seen.append(ipset)
+                        sc = session.Scn(N, slot, blk)
+                        for k, q in enumerate(seqs):
+                            h = hdr(k % 2, q, ext=0xFFFFFFFF, it=0xFFFFFFFF, bo=0xFFFFFFFF) if k in ipset else hdr(k % 2, q)
+                            sc.add("raw %x %s" % (((p + k) % N) * slot, h.hex()))
+                        sc.meta = {"N": N, "f": f, "p": p, "seqs": seqs, "kind": "status", "ip": sorted(ipset)}
+                        sc.meta["rec"] = sc.add("recover"); sc.meta["hdrs2"] = sc.add("hdrs")
+                        scns.append(sc)
+    return scns
+
+
+def status_oracle(s, out):
+    me = s.meta
+    N, f, p, ipset = me["N"], me["f"], me["p"], set(me["ip"])
+    resumable = f >= 2 and f % 2 == 0 and {f - 2, f - 1} <= ipset       # newest two: firmware then parity, both in progress
+    pair = sorted([(p + f - 2) % N, (p + f - 1) % N]) if resumable else []
+    rc = out[me["rec"]][0]
+    msgs = []
+    if resumable != rc.startswith("some"):
+        msgs.append("app_boot_status on ring N=%d (%d used from position %d, in progress: %s) returned %s; the newest in-progress firmware/parity pair is %s" % (N, f, p, sorted(ipset), rc, pair or "absent"))
+    hd = out[me["hdrs2"]][0].split(",")
+    ip = sorted(i for i, h in enumerate(hd) if h != "-" and bytes.fromhex(h)[16:20] == b"\xff\xff\xff\xff")
+    if rc.startswith("some") or rc == "none":
+        if ip != (pair if rc.startswith("some") else []):
+            msgs.append("app_boot_status on ring N=%d (%d used from position %d, in progress: %s) returned %s and leaves slots %s in progress (expected %s)" % (N, f, p, sorted(ipset), rc.split(":")[0], ip, pair if rc.startswith("some") else []))
+    return msgs
+
+
 def ring_oracle(s, out):
     me = s.meta
     N, f, p, seqs = me["N"], me["f"], me["p"], me["seqs"]
@@ -118,7 +165,7 @@ def write_oracle(s, out):
 def run(chk):
     chk.prove()
     rnd = random.Random(chk.seed)
-    scns = ring_cases() + write_cases(rnd, chk.quick())
+    scns = ring_cases() + status_cases() + write_cases(rnd, chk.quick())
     lines, impl, outs = v1.run(chk, scns, "orig", stream="orig-ring")
     nt, dist = [], {"ring_states": 0, "write_scenarios": 0, "wrap_states": 0}
     for s, l, raw, out in zip(scns, lines, impl, outs):
@@ -128,6 +175,9 @@ def run(chk):
             dist["ring_states"] += 1
             dist["wrap_states"] += any(q >= 0xFFFFFFF0 for q in s.meta["seqs"])
             msgs = ring_oracle(s, out)
+        elif s.meta["kind"] == "status":
+            dist["status_only"] = dist.get("status_only", 0) + 1
+            msgs = status_oracle(s, out)
         else:
             dist["write_scenarios"] += 1
             msgs = write_oracle(s, out)
@@ -138,6 +188,6 @@ def run(chk):
     chk.note_cases("orig-ring", lines, nt, sample_n=2, dist=dist)
     chk.cov["exhaustive"] = False
     return chk.finish(level="proof",
-        rule="orig-ring: EVERY consistent ring state for 3..6 slots (every fill level and rotation) with first sequence numbers 0, 7, 2^31-1 and values placing the 2^32-1 wrap at different points of the run; start, then app_boot_status; "
+        rule="orig-ring: EVERY consistent ring state for 3..6 slots (every fill level and rotation) with first sequence numbers 0, 7, 2^31-1 and values placing the 2^32-1 wrap at different points of the run; start, then app_boot_status; the same ring states with in-progress headers at chosen positions (newest pair, newest slot only, oldest, all, a lone first header) and app_boot_status alone: resumes exactly the newest in-progress firmware/parity pair, otherwise idle with nothing left in progress; "
              "write scenarios: fragment indices 1, n, n+1, around the parity capacity of the slot, n+16384 (+1), random, for sizes 1..256 and slots 17664 B .. 37888 B at every ring position incl. the last slot; non-trivial = every case; distinct by case text",
         trusted=core.TRUSTED_COMMON + ["C20: ring states are created by writing headers directly (raw) - the property quantifies over consistent ring states"])
